@@ -569,6 +569,172 @@ def rule_no_raw_user_values_in_result(eng, rep, rule="C20-6.result-arrays-are-ma
     rep.require_count(rule, "user callback call sites known to the value-flow graph", len(user_results), 10)
 
 
+def rule_nan_replacement_is_total(eng, rep, rule="C20-2b.NaN-replacement-visits-every-element"):
+    """replace_nan_with_none must reach every float of a nested dict/list: a container is answered by a comprehension that applies the function to every element;
+    the argument itself is handed back only when it is neither a dict nor a list (a scalar).  A fast path that returns a list unchanged after a partial test
+    (`not isnan(min(d))`) leaves NaN in the output, which is then no strict JSON."""
+    fn = eng.fn("util.replace_nan_with_none")
+    cfg = eng.cfg(fn)
+    d = fn.posparams[0]
+
+    def recursive_on(e, var):
+        return isinstance(e, ast.Call) and any(t.fid == fn.fid for t in (eng.res.calls[id(e)].targets if id(e) in eng.res.calls else [])) and len(e.args) == 1 and ekey(e.args[0]) == var
+
+    def is_inst(at, kinds):
+        c = at.lhs
+        return isinstance(c, ast.Call) and isinstance(c.func, ast.Name) and c.func.id == "isinstance" and len(c.args) == 2 and ekey(c.args[0]) == d \
+            and set(x.id for x in ast.walk(c.args[1]) if isinstance(x, ast.Name)) & set(kinds)
+
+    n = 0
+    for node, dd in cfg.g.nodes(data=True):
+        st = dd["ast"]
+        if dd["kind"] != "stmt" or not isinstance(st, ast.Return) or st.value is None:
+            continue
+        n += 1
+        v = st.value
+        gs = [a for (_b, a) in guards_of(cfg, node)]
+        site = eng.where(fn, st)
+        in_container = [k for k in ("dict", "list", "tuple") if any(a.op == "truth" and is_inst(a, [k]) for a in gs)]
+        if isinstance(v, ast.DictComp) and len(v.generators) == 1 and not v.generators[0].ifs and isinstance(v.generators[0].target, ast.Tuple) \
+                and recursive_on(v.value, ekey(v.generators[0].target.elts[1])) and ekey(v.generators[0].iter).startswith(d + ".items"):
+            rep.ok(rule, site, "dict: every value goes through the function again")
+        elif isinstance(v, (ast.ListComp, ast.GeneratorExp)) and len(v.generators) == 1 and not v.generators[0].ifs and recursive_on(v.elt, ekey(v.generators[0].target)) and ekey(v.generators[0].iter) == d:
+            rep.ok(rule, site, "list: every element goes through the function again")
+        elif isinstance(v, ast.Constant) and v.value is None:
+            rep.ok(rule, site, "a NaN scalar becomes None", nontrivial=False)
+        elif in_container:
+            rep.bad(rule, site, "util.replace_nan_with_none|container-not-fully-visited|%s" % short(v, 25),
+                    "inside the %s branch the function returns `%s` instead of a comprehension over every element: NaN entries the shortcut's test does not see stay in the output" % (in_container[0], short(v, 40)))
+        elif isinstance(v, ast.Name) and v.id == d:
+            excluded = all(any(a.op == "false" and is_inst(a, [k]) for a in gs) for k in ("dict", "list"))
+            if excluded:
+                rep.ok(rule, site, "the argument is handed back unchanged only when it is neither a dict nor a list")
+            else:
+                rep.bad(rule, site, "util.replace_nan_with_none|returns-argument-unvisited", "the argument can be handed back unchanged although it may be a dict or a list")
+        else:
+            rep.unknown(rule, site, "return `%s` not classified" % short(v))
+    rep.require_count(rule, "returns of replace_nan_with_none", n, 3)
+
+
+def rule_table_rows_uniquely_labelled(eng, rep, rule="C20-5b.diagnostic-table-rows-are-uniquely-labelled"):
+    """DataFrame.to_dict() (used by OptimResults.to_dict) keys every column by the row label: rows sharing a label collapse into one.  The table must therefore be
+    built with the default RangeIndex, or with the `iters_total` column (consecutive numbers, C18-4) as index."""
+    tdf = eng.fn("diagnostic_info.DiagnosticInfo.to_dataframe")
+    n = 0
+    for node in eng.prog.own_nodes(tdf):
+        if isinstance(node, ast.Call) and ekey(node.func).split(".")[-1] == "DataFrame":
+            n += 1
+            idx = [kw.value for kw in node.keywords if kw.arg == "index"] + (list(node.args[1:2]))
+            site = eng.where(tdf, node)
+            if not idx:
+                rep.ok(rule, site, "table built with the default index 0..rows-1")
+            elif "iters_total" in ekey(idx[0]):
+                rep.ok(rule, site, "table indexed by iters_total (consecutive numbers by C18-4)")
+            else:
+                rep.bad(rule, site, "diagnostic_info|table-index|%s" % short(idx[0], 30),
+                        "the table is indexed by `%s`, which is not unique across runs: DataFrame.to_dict() keeps one row per label and the reloaded table loses rows" % short(idx[0], 40))
+        if isinstance(node, ast.Call) and isinstance(node.func, ast.Attribute) and node.func.attr in ("set_index",):
+            rep.bad(rule, eng.where(tdf, node), "diagnostic_info|table-index|set_index", "the table's index is replaced by `%s`" % short(node, 40))
+    rep.require_count(rule, "DataFrame constructions in to_dataframe", n, 1)
+
+
+def rule_integer_arrays_stay_integer(eng, rep, rule="C20-7.integer-valued-result-arrays-keep-an-integer-dtype"):
+    """from_dict rebuilds jacmin_eval_nums with dtype=int and the counters as ints; the round trip (and str()) reproduces the original only if the Model arrays they
+    are copied from are integer arrays.  Dtype inference over every (re)binding of a Model field that __init__ allocates with dtype=int: the new value must be
+    an integer array again -- np.append(<int array>, <non-float>), a copy / permutation / slice of the field, an allocation with dtype=int, or an internal helper
+    whose returned array is allocated with an integer dtype."""
+    init = eng.fn("model.Model.__init__")
+    selfn = init.posparams[0]
+
+    def is_int_dtype(call):
+        for kw in call.keywords:
+            if kw.arg == "dtype":
+                t = ekey(kw.value)
+                return t in ("int", "np.int", "np.int64", "np.int32", "numpy.int64", "np.intp")
+        return False
+
+    ALLOC = ("zeros", "ones", "empty", "full", "arange")
+    int_fields = set()
+    for node in eng.prog.own_nodes(init):
+        if isinstance(node, ast.Assign) and len(node.targets) == 1 and isinstance(node.targets[0], ast.Attribute) and isinstance(node.value, ast.Call) \
+                and ekey(node.value.func).split(".")[-1] in ALLOC and is_int_dtype(node.value):
+            int_fields.add(node.targets[0].attr)
+    if not rep.require_count(rule, "Model fields allocated with an integer dtype", len(int_fields), 2):
+        return
+
+    def dtype_of(fi, cfg, at, e, sn, depth=3):
+        """'int' / 'float' / None (unknown)"""
+        if isinstance(e, ast.Attribute) and isinstance(e.value, ast.Name) and e.value.id == sn:
+            return "int" if e.attr in int_fields else None
+        if isinstance(e, ast.Subscript):
+            return dtype_of(fi, cfg, at, e.value, sn, depth)
+        if isinstance(e, ast.Constant):
+            return "int" if isinstance(e.value, int) and not isinstance(e.value, bool) else ("float" if isinstance(e.value, float) else None)
+        if isinstance(e, ast.Name) and depth > 0:
+            try:
+                defs = cfg.defs_reaching(at, e.id)
+            except Exception:
+                return None
+            kinds = set()
+            for dn in defs:
+                st = cfg.ast_of(dn)
+                if isinstance(st, ast.Assign) and len(st.targets) == 1 and isinstance(st.targets[0], ast.Name):
+                    kinds.add(dtype_of(fi, cfg, st, st.value, sn, depth - 1))
+                elif isinstance(st, ast.Assign) and isinstance(st.targets[0], ast.Subscript):
+                    continue                     # element stores do not change the dtype of the array
+                else:
+                    kinds.add(None)
+            return kinds.pop() if len(kinds) == 1 else None
+        if isinstance(e, ast.Call):
+            fn = ekey(e.func).split(".")[-1]
+            if fn in ALLOC:
+                return "int" if is_int_dtype(e) else ("float" if not any(kw.arg == "dtype" for kw in e.keywords) and fn != "arange" else None)
+            if fn == "copy" and isinstance(e.func, ast.Attribute):
+                return dtype_of(fi, cfg, at, e.func.value, sn, depth)
+            if fn == "astype" and e.args:
+                return "int" if ekey(e.args[0]) in ("int", "np.int64") else ("float" if ekey(e.args[0]) == "float" else None)
+            if fn == "append" and len(e.args) >= 2:
+                a0 = dtype_of(fi, cfg, at, e.args[0], sn, depth)
+                a1 = dtype_of(fi, cfg, at, e.args[1], sn, depth)
+                if a0 == "int" and a1 in ("int", None):
+                    return "int"              # a name appended to an integer array: its value is a counter (C03-1 / C17-3)
+                return "float" if "float" in (a0, a1) else None
+            ci = eng.res.calls.get(id(e))
+            if ci is not None and len(ci.targets) == 1 and depth > 0 and not ci.targets[0].is_lambda:
+                t = ci.targets[0]
+                tcfg = eng.cfg(t)
+                kinds = set()
+                for r in eng.prog.own_nodes(t):
+                    if isinstance(r, ast.Return) and r.value is not None:
+                        kinds.add(dtype_of(t, tcfg, r, r.value, t.posparams[0] if t.is_method and t.posparams else "\0", depth - 1))
+                return kinds.pop() if len(kinds) == 1 else None
+        return None
+
+    model = eng.prog.cls("Model")
+    n = 0
+    for m in sorted(model.methods.values(), key=lambda f: f.qualname):
+        sn = m.posparams[0] if m.posparams else None
+        cfg = eng.cfg(m)
+        for node in eng.prog.own_nodes(m):
+            if not (isinstance(node, ast.Assign) and len(node.targets) == 1):
+                continue
+            t = node.targets[0]
+            if not (isinstance(t, ast.Attribute) and isinstance(t.value, ast.Name) and t.value.id == sn and t.attr in int_fields):
+                continue
+            n += 1
+            d = dtype_of(m, cfg, node, node.value, sn)
+            site = eng.where(m, node)
+            if d == "int":
+                rep.ok(rule, site, "self.%s stays an integer array (`%s`)" % (t.attr, short(node.value, 40)), nontrivial=not m.qualname.endswith("__init__"))
+            elif d == "float":
+                rep.bad(rule, site, "%s|integer-array-becomes-float|%s" % (m.fid, t.attr),
+                        "`%s` re-binds the integer array self.%s to a floating-point array: evaluation numbers / sample counts are returned as floats, from_dict rebuilds them as ints, "
+                        "str() differs ('[124. 126.]' vs '[124 126]')" % (short(node, 50), t.attr))
+            else:
+                rep.unknown(rule, site, "cannot infer the dtype of `%s` assigned to the integer array self.%s" % (short(node.value, 40), t.attr))
+    rep.require_count(rule, "(re)bindings of integer Model arrays", n, 4)
+
+
 def run(eng, rep):
     rep.explain("C20: to_dict keys = from_dict keys = constructor fields, each routed to the field of the same name (T9/T4); "
                 "to_dict emits only None/tolist()/int()/float()/str()/nested dict and the replace_nan branch covers the whole dict, "
@@ -582,3 +748,6 @@ def run(eng, rep):
     rule_str_never_formats_none(eng, rep, safe=safe)
     rule_diag_columns_scalar(eng, rep)
     rule_no_raw_user_values_in_result(eng, rep)
+    rule_integer_arrays_stay_integer(eng, rep)
+    rule_nan_replacement_is_total(eng, rep)
+    rule_table_rows_uniquely_labelled(eng, rep)
